@@ -113,12 +113,16 @@ def _operand_check_sem(p: Program, d: Any) -> str:
 
     me = possem.Obj('NumberExpr', {}, 'self')
     expr_operand = possem.Obj('NumberExpr', {}, 'other expression')
-    for other, kind in ((5, 'int'), (decimal.Decimal('2.50'), 'Decimal'), (expr_operand, 'NumberExpr'), ('text', 'str'), (None, 'None')):
+    # every int and every finite Decimal is an operand of ordinary arithmetic: zeros of any exponent and sign, negatives, subnormals,
+    # values beyond the context precision
+    numbers = [(5, 'int'), (0, 'int'), (-3, 'int'), (10 ** 30, 'int')] + [(decimal.Decimal(t), 'Decimal') for t in (
+        '2.50', '0', '0.00', '-0', '0E+2', '-1.5', '1E-7', '1E+3', '1E-999999', '123456789012345678901234567890.5')]
+    for other, kind in (*numbers, (expr_operand, 'NumberExpr'), ('text', 'str'), (None, 'None')):
         it = Interp()
         try:
             res = it.call_function(w, [me, other], {d.params[0]: 'OP'})
         except possem.Raised as ex:
-            return f'a right operand of kind {kind}: raises {ex}'
+            return f'a right operand {other!r} ({kind}): raises {ex} -- the arithmetic result exists for every int and every finite Decimal'
         if kind in ('str', 'None'):
             if it.calls or res != 'NotImplemented':
                 return f'a right operand of kind {kind} is not answered with NotImplemented (calls {len(it.calls)}, result {res!r})'
